@@ -249,7 +249,7 @@ func history(r *fw.R, s scen) {
 	} else {
 		r.Outcome("history-exhausted")
 	}
-	if ex.Executions > 1 {
+	if ex.Executions > 1 || s.dev == 0 { // (renderer histories have no pool answers to vary: the history itself is the case)
 		r.NontrivialIdx()
 	}
 }
@@ -285,6 +285,7 @@ var poisonModes = []string{"zero", "donor", "scramble"}
 func families(tier string) []fw.Family {
 	sc := scenarios(tier)
 	hs := histories(tier)
+	rh := rendererHistories(tier)
 	sort.SliceStable(hs, func(i, j int) bool { return len(hs[i].idx) < len(hs[j].idx) })
 	maxExec := int64(300000)
 	if tier == "thorough" {
@@ -302,7 +303,47 @@ func families(tier string) []fw.Family {
 		{Name: "pool-histories", N: int64(len(hs)),
 			Check: func(i int64, r *fw.R) { history(r, hs[i]) },
 			Desc:  func(i int64) string { return "sequential history then probe: " + hs[i].String() }},
+		{Name: "renderer-histories", N: int64(len(rh)),
+			Check: func(i int64, r *fw.R) { history(r, rh[i]) },
+			Desc:  func(i int64) string { return "sequential history then probe: " + rh[i].String() }},
 	}
+}
+
+// rendererHistories: every sequence of up to depth renderer calls (each on its own canvas and its
+// own document) followed by a probe; the renderer bodies contain no hooked operation, so each
+// history is one execution and two concurrent calls can only be observed as one of their two
+// orders (unsynchronised accesses are the free-running -race pass's subject).
+func rendererHistories(tier string) []scen {
+	depth := 1
+	if tier == "thorough" {
+		depth = 2
+	}
+	var menu []int
+	for i := FirstRenderBody; i < len(Bodies); i++ {
+		menu = append(menu, i)
+	}
+	for i, b := range Bodies[:FirstRenderBody] {
+		if b.Name == "NewTextBox(shared font)" || b.Name == "rasterizer.Draw" {
+			menu = append(menu, i)
+		}
+	}
+	var out []scen
+	var rec func(prefix []int)
+	rec = func(prefix []int) {
+		if len(prefix) >= 1 {
+			for _, probe := range menu {
+				out = append(out, scen{append(append([]int{}, prefix...), probe), 0, 0, "lifo-fifo-new"})
+			}
+		}
+		if len(prefix) == depth {
+			return
+		}
+		for _, d := range menu {
+			rec(append(append([]int{}, prefix...), d))
+		}
+	}
+	rec(nil)
+	return out
 }
 
 var _ = time.Now
